@@ -8,7 +8,7 @@
     of the 2 s driver and the propagation of an expiry to the other nodes ("then everywhere"). *)
 From RN Require Import Base.Res Base.AMap Naming.Service Naming.ServiceProofs Naming.Timeout Naming.Filter
   Naming.Actor Naming.IndexProofs Naming.ActorProofs Naming.BudgetProofs Naming.OwnershipProofs Naming.ExpiryProofs Naming.Script
-  Naming.ScriptProofs Naming.ExpiryTraceProofs Naming.ArmedProofs Naming.Regression.
+  Naming.ScriptProofs Naming.ExpiryTraceProofs Naming.ArmedProofs Naming.Regression Naming.OwnerKeptProofs.
 Local Open Scope N_scope.
 
 (** safety of one tick: an instance modified less than the health time-out ago is untouched *)
@@ -45,6 +45,16 @@ Theorem C13_persistent_and_grpc_never_expired : forall c a k ik i,
   stored a k ik = Some i -> (i_ephemeral i = false \/ i_grpc i = true \/ i_cluster i <> 0) ->
   stored (time_check c a) k ik = Some i.
 Proof. exact persistent_and_grpc_never_expired. Qed.
+
+(** ... and an instance registered by a gRPC connection STAYS that connection's instance when an HTTP /
+    console write that names it ephemeral touches it, whatever the update tag says (the keep-owner rule of
+    Service::update_instance): it does not come under the clock that way *)
+Theorem C13_grpc_owner_kept_by_http_write : forall s i0 tg fs old,
+  iget (i_key i0) (s_insts s) = Some old -> i_grpc old = true ->
+  i_ephemeral i0 = true -> i_grpc i0 = false ->
+  exists i2, iget (i_key i0) (s_insts (fst (fst (fst (svc_update s i0 tg fs))))) = Some i2 /\
+             i_grpc i2 = true /\ i_client i2 = i_client old /\ is_enable_timeout i2 = false.
+Proof. exact svc_update_keeps_grpc_owner. Qed.
 
 (** the invariant "every healthy instance under the clock has its entry (last_modified, key) in
     the healthy time-out set" is preserved by every op whose cluster-synced updates satisfy
